@@ -18,7 +18,9 @@ use std::collections::BTreeMap;
 fn strategy(tier: Tier) -> BoxedStrategy<Case> {
     let three = gen::case_strategy(GenOpts { dims: vec![3], max_n: tier.pick(60, 150), big_n_weight: 2, masks: MaskMode::Mixed, max_offset_log2: 16, ..GenOpts::default() });
     let low = gen::case_strategy(GenOpts { dims: vec![1, 2], max_n: 12, masks: MaskMode::Mixed, ..GenOpts::default() });
-    (prop_oneof![9 => three, 1 => low], proptest::collection::vec(0u8..6, 0..12), any::<u32>())
+    // (shell inputs: cells with hundreds of faces / planes / vertices)
+    let shell = gen::shell_strategy(tier.pick(400, 1500));
+    (prop_oneof![17 => three, 2 => low, 1 => shell], proptest::collection::vec(0u8..6, 0..12), any::<u32>())
         .prop_map(|(mut c, ops, pick)| {
             c.aux_i = std::iter::once(pick as i64).chain(ops.into_iter().map(|o| o as i64)).collect();
             c
@@ -359,19 +361,35 @@ pub fn check(c: &Case, cs: &mut CaseStats) -> Result<(), String> {
         cs.nt();
         cs.label("cell-with>=7-faces");
     }
+    if vi.cells_iter().any(|cell| cell.clipping_planes.len() >= 256) {
+        cs.label("cell-with>=256-planes");
+    }
     Ok(())
+}
+
+/// deterministic part: one large shell (thorough tier: 11 000 generators, a cell with more than
+/// 10 900 faces and 65 000 face-vertex entries; quick tier: 700)
+fn fixed(tier: Tier, stats: &mut crate::runner::Stats) -> Result<(), crate::runner::Failure> {
+    let n = tier.pick(700, 11_000);
+    let mut c = gen::shell_case(n, 0.4, 0.123, 1e-3, false, 0, [1.; 3], 0);
+    c.aux_i = vec![0, 0, 3, 1, 0, 4];
+    let (r, mut cs) = crate::runner::eval(check, &c);
+    cs.label("fixed-large-shell");
+    let h = c.hash64();
+    stats.absorb(h, cs, Some(c.to_sample()));
+    r.map_err(|m| crate::runner::Failure { message: m, case: Some(c) })
 }
 
 pub fn def() -> PropDef {
     PropDef {
         id: "C15",
-        rule: "cases: 90% 3D inputs from all families (incl. exact lattices, co-spherical, coplanar, wall points, clusters) x masks, periodic or not, n to 60 (quick) / 150 (thorough); 10% 1D / 2D inputs for the rejection clause; each with a generated sequence of 0..12 operations {with_faces, discard_faces, clone, integrals, accessors} applied to one picked cell (interpreter + one-bit model 'has faces'). oracle for every constructed cell of VoronoiIntegrator::with_faces(): every (well-conditioned) vertex lies on its three planes and inside all half spaces of the cell; every vertex occurs in exactly three face lists; every face list is duplicate free, consecutive vertices share an edge (a second common plane), the polygon is planar on clipping_plane(f), every turn is a left turn about the inward normal (convex, counter-clockwise), its shoelace area equals the face's AreaIntegral and the area integral of the same plane computed without stored faces; every edge is used once in each direction by exactly two faces; V - E + F = 2; faces are listed in clipping-plane order and neighbour(f) / shift(f) equal those of the f-th non-symmetric face integral; discard_faces() gives bitwise the integrals of the never-converted cell and discard_faces().with_faces() reproduces the lists; after any operation sequence the unchecked accessors return the same data; with_faces on a 1D / 2D integrator or cell panics with the documented message. Geometric predicates are applied to cells whose vertices have conditioning <= 1e3, combinatorial ones to all. non-trivial: some cell with >= 7 faces of which one is not a wall; distinct by case hash.",
+        rule: "cases: 85% 3D inputs from all families (incl. exact lattices, co-spherical, coplanar, wall points, clusters) x masks, periodic or not, n to 60 (quick) / 150 (thorough); 10% 1D / 2D inputs for the rejection clause; 5% 'shell' inputs (a generator surrounded by 20..400 (quick) / 1500 (thorough) generators on a jittered Fibonacci sphere: cells with hundreds of faces and clipping planes), and in the thorough tier one fixed shell of 11 000 generators (a cell with more than 10 900 faces, 65 000 face-vertex entries); each with a generated sequence of 0..12 operations {with_faces, discard_faces, clone, integrals, accessors} applied to one picked cell (interpreter + one-bit model 'has faces'). oracle for every constructed cell of VoronoiIntegrator::with_faces(): every (well-conditioned) vertex lies on its three planes and inside all half spaces of the cell; every vertex occurs in exactly three face lists; every face list is duplicate free, consecutive vertices share an edge (a second common plane), the polygon is planar on clipping_plane(f), every turn is a left turn about the inward normal (convex, counter-clockwise), its shoelace area equals the face's AreaIntegral and the area integral of the same plane computed without stored faces; every edge is used once in each direction by exactly two faces; V - E + F = 2; faces are listed in clipping-plane order and neighbour(f) / shift(f) equal those of the f-th non-symmetric face integral; discard_faces() gives bitwise the integrals of the never-converted cell and discard_faces().with_faces() reproduces the lists; after any operation sequence the unchecked accessors return the same data; with_faces on a 1D / 2D integrator or cell panics with the documented message. Geometric predicates are applied to cells whose vertices have conditioning <= 1e3, combinatorial ones to all. non-trivial: some cell with >= 7 faces of which one is not a wall; distinct by case hash.",
         strategy,
         check,
         cases: |t| t.pick(3000, 120_000),
         profiles: &["release", "dbg"],
-        required: &["cell-with>=7-faces", "lowdim-rejected", "op-sequence>=4", "periodic", "mask:mixed"],
-        fixed: None,
+        required: &["cell-with>=7-faces", "cell-with>=256-planes", "lowdim-rejected", "op-sequence>=4", "periodic", "mask:mixed"],
+        fixed: Some(fixed),
         assumptions: &["'face data is always present when accessed without a check' is a type-state invariant: every public constructor / transition sequence is driven and the accessors are called after each step (also in the debug-assertions build); that no future code path constructs a ConvexCell<WithFaces> without face data cannot be shown by testing", "geometric predicates skip ill-conditioned cells (known finding 'ill-conditioned'), the combinatorial ones do not"],
     }
 }
